@@ -28,6 +28,15 @@ def run(ctx) -> None:
     ctx.guard("C16.transfer-twins", transfer_twins)
     ctx.guard("C16.numbering-diff", numbering_diff)
     ctx.guard("C16.generic-refuses", generic_refuses)
+    # identical histories: both copies of transfer count the condensed entries and the LVH steps the same (required) way,
+    # and hand the same liquid to the dispense
+    from . import c01, c11
+    from .common import concrete_devices
+
+    for dev in concrete_devices(ctx):
+        ctx.reuse("C16.history-twins", c11.condense_count, dev)
+        ctx.reuse("C16.history-twins", c11.lvh_count, dev)
+        ctx.reuse("C16.state-twins", c01.pair_transfer, dev)
 
 
 def override_set(ctx) -> None:
@@ -307,6 +316,7 @@ def numbering_diff(ctx) -> None:
 
     ctx.reuse("C16.numbering-diff", c08.formulas)
     ctx.reuse("C16.numbering-diff", c08.regex_agreement)
+    ctx.reuse("C16.numbering-diff", c08.device_private)
 
 
 def generic_refuses(ctx) -> None:
